@@ -514,9 +514,9 @@ Print Assumptions C11_Linear_no_dropped_params.
 Theorem C11_Linear_roundtrip_guarded : roundtrip_guarded_for desc_Linear.
 Proof. apply roundtrip_guarded_generic; vm_compute; reflexivity. Qed.
 Print Assumptions C11_Linear_roundtrip_guarded.
-Theorem C11_Linear_config_stable_guarded : config_stable_guarded_for desc_Linear.
-Proof. apply config_stable_guarded_generic; vm_compute; reflexivity. Qed.
-Print Assumptions C11_Linear_config_stable_guarded.
+Theorem C11_Linear_config_stable : config_stable_for desc_Linear.
+Proof. apply config_stable_unguarded_generic; vm_compute; reflexivity. Qed.
+Print Assumptions C11_Linear_config_stable.
 
 (* ---- linear_layer.LinearConstraints *)
 Theorem C11_LinearConstraints_keys_cover_init : keys_cover_init desc_LinearConstraints.
@@ -798,6 +798,20 @@ Theorem C11_RTL_config_stable : config_stable_for desc_RTL.
 Proof. apply config_stable_generic; vm_compute; reflexivity. Qed.
 Print Assumptions C11_RTL_config_stable.
 
+(* the constructor arguments from which the seed-derived structure of CalibratedLatticeEnsembleConfig is computed
+   (attributes read by premade_lib.set_random_lattice_ensemble) are stored verbatim and survive the round trip; the structure is a
+   function of them (C17 model), hence equal after rebuilding *)
+Theorem C11_random_ensemble_deterministic : attrs_survive desc_CalibratedLatticeEnsembleConfig ["lattice_rank"; "lattices"; "num_lattices"; "random_seed"].
+Proof. apply attrs_survive_generic; vm_compute; reflexivity. Qed.
+Print Assumptions C11_random_ensemble_deterministic.
+
+(* the constructor arguments from which the seed-derived structure of RTL is computed
+   (attributes read by RTL._get_rtl_structure) are stored verbatim and survive the round trip; the structure is a
+   function of them (C17 model), hence equal after rebuilding *)
+Theorem C11_rtl_structure_deterministic : attrs_survive desc_RTL ["avoid_intragroup_interaction"; "lattice_rank"; "num_lattices"; "random_seed"].
+Proof. apply attrs_survive_generic; vm_compute; reflexivity. Qed.
+Print Assumptions C11_rtl_structure_deterministic.
+
 (* every layer, model and model-config class is registered under its own name in
    premade.get_custom_objects (needed by keras.models.load_model) *)
 Theorem C11_registry_covers_layers : registry_covers_layers custom_objects all_classes.
@@ -814,7 +828,9 @@ Print Assumptions C11_registry_covers_all_but_pwl_scoped.
 Theorem C11_no_dropped_params_refuted :
   exists d p, In d all_classes /\ In p (param_names d) /\ In p (c_dropped d) /\ ~ In p (emit_keys d).
 Proof.
-  exists desc_CalibratedLatticeEnsemble, "dtype". split; [vm_compute; tauto|]. split; [vm_compute; tauto|]. split; [vm_compute; tauto|].
+  exists desc_CalibratedLatticeEnsemble, "dtype". split.
+  { unfold all_classes. do 27 apply in_cons. apply in_eq. }
+  split; [apply mem_In; vm_compute; reflexivity|]. split; [apply mem_In; vm_compute; reflexivity|].
   apply mem_false_not_In. vm_compute. reflexivity.
 Qed.
 Print Assumptions C11_no_dropped_params_refuted.
